@@ -87,9 +87,17 @@ def _scalar(tok):
         raise UnsupportedYAML("indicator at start of plain scalar: %r" % tok)
     if _INT.match(tok):
         return int(tok)
-    if tok in ("true", "True", "TRUE", "false", "False", "FALSE", "null", "Null", "NULL", "~") or _FLOAT.match(tok) \
-            or tok.startswith(("0x", "0o")):
-        raise UnsupportedYAML("non-string, non-integer plain scalar: %r" % tok)
+    # YAML 1.2 core schema (what ruamel.yaml resolves by default): booleans, null, floats
+    if tok in ("true", "True", "TRUE"):
+        return True
+    if tok in ("false", "False", "FALSE"):
+        return False
+    if tok in ("null", "Null", "NULL", "~"):
+        return None
+    if _FLOAT.match(tok):
+        return float(tok)
+    if tok.startswith(("0x", "0o")):
+        raise UnsupportedYAML("hexadecimal / octal plain scalar: %r" % tok)
     return tok
 
 
